@@ -178,6 +178,7 @@ type RollingFileAppender struct {
 	Rotation TimeRotation `PluginAttribute:"rotation"`
 	MaxAge   int32        `PluginAttribute:"maxAge"`
 
+	mu       rotationLock // held shared while writing, exclusively while rotating
 	file     atomic.Pointer[os.File]
 	oldFile  atomic.Pointer[os.File]
 	currTime atomic.Int64
@@ -204,6 +205,11 @@ func (c *RollingFileAppender) Append(e *Event) {
 // Write writes bytes to the current log file.
 func (c *RollingFileAppender) Write(b []byte) {
 	c.rotate()
+
+	// The shared lock keeps a rotation from closing the file between
+	// loading the pointer and the end of the write.
+	c.mu.RLock()
+	defer c.mu.RUnlock()
 	if file := c.file.Load(); file != nil {
 		_, _ = file.Write(b)
 	}
@@ -226,13 +232,18 @@ func (c *RollingFileAppender) Stop() {
 func (c *RollingFileAppender) rotate() {
 	now := time.Now()
 	nowTime := c.Rotation.Time(now)
-	oldTime := c.currTime.Load()
-	if nowTime <= oldTime {
+	if nowTime <= c.currTime.Load() {
 		return
 	}
-	if !c.currTime.CompareAndSwap(oldTime, nowTime) {
+
+	// Rotations are serialized and wait for in-flight writes; a writer that
+	// lost the race finds the interval already advanced and returns.
+	c.mu.Lock()
+	defer c.mu.Unlock()
+	if nowTime <= c.currTime.Load() {
 		return
 	}
+	c.currTime.Store(nowTime)
 
 	// Close the previous rotation file
 	if file := c.oldFile.Swap(nil); file != nil {
